@@ -5,6 +5,7 @@ import Sigc.Lemmas.StepConn
 import Sigc.Lemmas.StepHandles
 import Sigc.Lemmas.StepTrack
 import Sigc.Lemmas.StepWF3
+import Sigc.Lemmas.InvOwnG
 import Sigc.Run
 import Sigc.Spec
 /-!
@@ -39,9 +40,11 @@ theorem forwarder_tracks_iff_trackable (s s' : St) (g : Nat) (h : Handle) (isVoi
   simp only [mkFun, hg] at hm
   split at hm
   · cases hm
-  · simp at hm
-    obtain ⟨rfl, _⟩ := hm
-    exact ⟨rfl, rfl⟩
+  · split at hm
+    · cases hm
+    · simp at hm
+      obtain ⟨rfl, _⟩ := hm
+      exact ⟨rfl, rfl⟩
 
 /-- copy construction gives the copy its own, fresh trackable identity -/
 theorem cpG_fresh_trackable (s s' : St) (r : String) (j i im : Nat) (h0 : Handle)
@@ -53,12 +56,13 @@ theorem cpG_fresh_trackable (s s' : St) (r : String) (j i im : Nat) (h0 : Handle
   obtain ⟨rfl, _⟩ := h
   exact ⟨{ obj := s.next, fl := h0.fl, impl := some im, trk := s.next + 1, lvl := h0.lvl }, by simp, rfl, rfl, rfl, rfl⟩
 
-/-- destroying a trackable_signal object invalidates every slot variable holding a forwarder to it -/
+/-- destroying a trackable_signal object (not refused: no functor owns it) invalidates every slot variable
+    holding a forwarder to it -/
 theorem delG_invalidates_forwarders (s s' : St) (r : String) (g : Nat) (h0 : Handle)
-    (hg : aget s.G g = some h0) (ht : h0.fl.isTrackable = true)
+    (hg : aget s.G g = some h0) (ht : h0.fl.isTrackable = true) (hown : s.ownedG.any (fun p => p.2 = g) = false)
     (h : stepSimple s (.delG g) = some (s', r)) :
     r = "ok" ∧ ∀ i v, aget s'.S i = some v → v.slot.tracksObj h0.trk = false := by
-  simp only [stepSimple, hg, ht] at h
+  simp only [stepSimple, hg, ht, hown] at h
   simp at h
   obtain ⟨rfl, rfl⟩ := h
   refine ⟨rfl, ?_⟩
@@ -147,22 +151,24 @@ example : (emitImpl 10 { bodies := [], top := [] }
   simp [emitImpl, emitLoop, invokeFun, exStT, aget, aset, setImpl, St.fresh, handleByObj, Flavour.isAcc, succId,
     St.log, eraseCell, nullConns, amap, unrefExec, gcImpl, callsOf, resultOf, collect, collectN]
 
-/-- **dies_with_object (destruction)**: destroying a trackable_signal object invalidates every
+/-- **dies_with_object (destruction)**: destroying a trackable_signal object (not refused: no functor owns
+    it — an owned one dies in `collect`, through the same code: `dropHandle_dies_with_object`) invalidates every
     representation holding a forwarder made from it — slot variables and cells of every list — so no
     signal can emit the destroyed object afterwards; well-formedness is kept -/
 theorem delG_dies_with_object (s s' : St) (r : String) (g : Nat) (h0 : Handle)
     (hg : aget s.G g = some h0) (ht : h0.fl.isTrackable = true) (hU : UniqueCells s.impls)
+    (hown : s.ownedG.any (fun p => p.2 = g) = false)
     (h : stepSimple s (.delG g) = some (s', r)) :
     r = "ok" ∧ NoTracker s' h0.trk ∧ UniqueCells s'.impls := by
   obtain ⟨hU1, hC, hS⟩ := invalidateTrackable_no_tracker s h0.trk hU
   cases himpl : h0.impl with
   | none =>
-    simp only [stepSimple, hg, ht, himpl] at h
+    simp only [stepSimple, hg, ht, himpl, hown] at h
     simp at h
     obtain ⟨rfl, rfl⟩ := h
     exact ⟨rfl, ⟨hS, hC⟩, hU1⟩
   | some im =>
-    simp only [stepSimple, hg, ht, himpl] at h
+    simp only [stepSimple, hg, ht, himpl, hown] at h
     simp at h
     obtain ⟨rfl, rfl⟩ := h
     refine ⟨rfl, ⟨?_, ?_⟩, ?_⟩
@@ -174,7 +180,29 @@ theorem delG_dies_with_object (s s' : St) (r : String) (g : Nat) (h0 : Handle)
       exact hC c h3
     · exact UniqueCells_gcImpl _ im hU1
 
+/-- … and a trackable_signal object owned by a functor dies the same way (`collect` runs `dropHandle` when the
+    last functor copy holding it is gone): nothing refers to it afterwards -/
+theorem dropHandle_dies_with_object (s : St) (g : Nat) (h0 : Handle)
+    (hg : aget s.G g = some h0) (ht : h0.fl.isTrackable = true) (hU : UniqueCells s.impls) :
+    NoTracker (dropHandle s g) h0.trk ∧ UniqueCells (dropHandle s g).impls ∧ aget (dropHandle s g).G g = none := by
+  obtain ⟨hU1, hC, hS⟩ := invalidateTrackable_no_tracker s h0.trk hU
+  unfold dropHandle
+  simp only [hg, ht, if_true]
+  cases himpl : h0.impl with
+  | none => exact ⟨⟨hS, hC⟩, hU1, by simp⟩
+  | some im =>
+    refine ⟨⟨?_, ?_⟩, ?_, by simp [gcImpl_G]⟩
+    · intro k v hv
+      simp only [gcImpl_S] at hv
+      exact hS k v hv
+    · intro c hc
+      have h3 := gcImpl_cells_subset _ im c hc
+      exact hC c h3
+    · exact UniqueCells_gcImpl _ im hU1
+
 example : UniqueCells exStT.impls ∧ TracksBelow exStT := by decide
+
+example : NoTracker (dropHandle exStT 0) 2 := (dropHandle_dies_with_object exStT 0 _ rfl rfl (by decide)).1
 
 /-- on the concrete state: destroying signal object 0 empties slot variable 0 and erases the forwarder
     cell 5 from list 6 (connection 0 reports disconnected); the other cells stay -/
@@ -205,15 +233,19 @@ example : (stepSimple exStT (.mvG 3 0)).map (fun x =>
   decide
 
 /-- **dies_with_object (move assignment)**: move-assigning a trackable_signal that has a list to another
-    signal object invalidates every forwarder made from the source -/
+    signal object (not refused as `owned`: `StepHandles.masgOwned`) invalidates every forwarder made from the
+    source -/
 theorem masgG_dies_with_object (s s' : St) (r : String) (j i : Nat) (d h0 : Handle)
     (hj : aget s.G j = some d) (hi : aget s.G i = some h0) (hfl : d.fl = h0.fl) (hlvl : d.lvl = h0.lvl) (hji : j ≠ i)
     (ht : h0.fl.isTrackable = true) (hacc : h0.fl.isAcc = false) (hsome : h0.impl.isSome = true)
-    (hU : UniqueCells s.impls) (h : stepSimple s (.masgG j i) = some (s', r)) :
+    (hU : UniqueCells s.impls) (hown : masgOwned s h0.fl j i = false)
+    (h : stepSimple s (.masgG j i) = some (s', r)) :
     r = "ok" ∧ NoTracker s' h0.trk ∧ UniqueCells s'.impls := by
+  unfold masgOwned at hown
   simp only [stepSimple, hj, hi] at h
   rw [if_neg (by simp [hfl]), if_neg (by simp [hlvl])] at h
-  simp only [hacc, hji, if_false, Bool.false_eq_true, ht, hsome, Bool.and_self, if_true, Option.some.injEq, Prod.mk.injEq] at h
+  simp only [hacc, hown, Bool.not_false, Bool.and_false] at h
+  simp only [hji, if_false, Bool.false_eq_true, ht, hsome, Bool.and_self, if_true, Option.some.injEq, Prod.mk.injEq] at h
   obtain ⟨rfl, rfl⟩ := h
   have hU2 : UniqueCells (match d.impl with
       | some old => gcImpl { s with G := aset (aset s.G j { d with impl := h0.impl }) i { h0 with impl := none } } old
@@ -231,9 +263,12 @@ example : (stepSimple exStT (.masgG 1 0)).map (fun x =>
 
 /-- **copy_is_distinct**: a copy of a trackable_signal has its own, fresh trackable base; destroying the
     copy invalidates nothing — every slot variable, every list (with all forwarders made from the
-    original) and every connection is untouched, and the shared list lives on -/
+    original) and every connection is untouched, and the shared list lives on.
+    `hnown`: no functor owns the (unused) name `j` — in every reachable state a consequence of `hj`, see
+    `copy_is_distinct_run` -/
 theorem copy_is_distinct (s s1 s2 : St) (r1 r2 : String) (j i : Nat) (h0 : Handle)
     (hi : aget s.G i = some h0) (hj : aget s.G j = none) (hfresh : TracksBelow s)
+    (hnown : s.ownedG.any (fun p => p.2 = j) = false)
     (h1 : stepSimple s (.cpG j i) = some (s1, r1)) (h2 : stepSimple s1 (.delG j) = some (s2, r2)) :
     r2 = "ok" ∧ s2.S = s.S ∧ s2.impls = s1.impls ∧ s2.C = s.C ∧ s2.K = s.K ∧
     aget s2.G i = aget s1.G i ∧ aget s2.G j = none := by
@@ -258,7 +293,11 @@ theorem copy_is_distinct (s s1 s2 : St) (r1 r2 : String) (j i : Nat) (h0 : Handl
     apply invalidateTrackable_noop
     · intro p hp; exact fS p (by rw [← hSa]; exact hp)
     · intro c hc; exact fI c (hsub c hc)
-  simp only [stepSimple, aget_aset_same, Bool.false_and, Bool.false_eq_true, if_false, hnoop, ite_self] at h2
+  have hownA : sa.ownedG.any (fun p => p.2 = j) = false := by
+    rcases hcase with ⟨_, rfl⟩ | ⟨_, _, rfl⟩
+    · exact hnown
+    · exact hnown
+  simp only [stepSimple, aget_aset_same, Bool.false_and, Bool.false_eq_true, if_false, hnoop, ite_self, hownA] at h2
   have hown : ∀ (n : Nat), gcImpl { sa with next := n, G := adel (aset sa.G j
         { obj := sa.next, fl := h0.fl, impl := some im, trk := sa.next + 1, lvl := h0.lvl }) j } im
       = { sa with next := n, G := adel (aset sa.G j
@@ -289,19 +328,19 @@ example :
     executes, also from inside an emission of `b` that is currently forwarding — `execOp_WF`): the three
     notifying operations leave nothing referring to the trackable_signal object, and keep well-formedness -/
 theorem dies_with_object_wf (s s' : St) (r : String) (op : Op) (h0 : Handle) (hw : WF s)
-    (hop : (∃ g, op = .delG g ∧ aget s.G g = some h0) ∨
+    (hop : (∃ g, op = .delG g ∧ aget s.G g = some h0 ∧ s.ownedG.any (fun p => p.2 = g) = false) ∨
            (∃ j i, op = .mvG j i ∧ aget s.G i = some h0 ∧ aget s.G j = none ∧ h0.fl.isAcc = false) ∨
            (∃ j i d, op = .masgG j i ∧ aget s.G j = some d ∧ aget s.G i = some h0 ∧ d.fl = h0.fl ∧ d.lvl = h0.lvl ∧
-              j ≠ i ∧ h0.fl.isAcc = false ∧ h0.impl.isSome = true))
+              j ≠ i ∧ h0.fl.isAcc = false ∧ h0.impl.isSome = true ∧ masgOwned s h0.fl j i = false))
     (ht : h0.fl.isTrackable = true) (h : stepSimple s op = some (s', r)) :
     r = "ok" ∧ NoTracker s' h0.trk ∧ WF s' := by
   have hw' : WF s' := stepSimple_WF hw h
-  rcases hop with ⟨g, rfl, hg⟩ | ⟨j, i, rfl, hi, hj, hacc⟩ | ⟨j, i, d, rfl, hj, hi, hfl, hlvl, hji, hacc, hsome⟩
-  · obtain ⟨a, b, _⟩ := delG_dies_with_object s s' r g h0 hg ht hw.uniqueCells h
+  rcases hop with ⟨g, rfl, hg, hown⟩ | ⟨j, i, rfl, hi, hj, hacc⟩ | ⟨j, i, d, rfl, hj, hi, hfl, hlvl, hji, hacc, hsome, hown⟩
+  · obtain ⟨a, b, _⟩ := delG_dies_with_object s s' r g h0 hg ht hw.uniqueCells hown h
     exact ⟨a, b, hw'⟩
   · obtain ⟨a, b, _⟩ := mvG_dies_with_object s s' r j i h0 hi hj ht hacc hw.uniqueCells h
     exact ⟨a, b, hw'⟩
-  · obtain ⟨a, b, _⟩ := masgG_dies_with_object s s' r j i d h0 hj hi hfl hlvl hji ht hacc hsome hw.uniqueCells h
+  · obtain ⟨a, b, _⟩ := masgG_dies_with_object s s' r j i d h0 hj hi hfl hlvl hji ht hacc hsome hw.uniqueCells hown h
     exact ⟨a, b, hw'⟩
 
 example : WF exStT := by decide
@@ -311,9 +350,10 @@ example : WF exStT := by decide
     to it — `b` can never emit the destroyed signal -/
 theorem delG_dies_with_object_run (f : Nat) (P : Prog) (ls : List Line) (s s' : St) (r : String) (g : Nat) (h0 : Handle)
     (hrun : runTop f P {} ls = some s) (hg : aget s.G g = some h0) (ht : h0.fl.isTrackable = true)
+    (hown : s.ownedG.any (fun p => p.2 = g) = false)
     (h : stepSimple s (.delG g) = some (s', r)) :
     r = "ok" ∧ NoTracker s' h0.trk :=
-  let ⟨a, b, _⟩ := delG_dies_with_object s s' r g h0 hg ht (reachable_UniqueCells f P ls s hrun) h
+  let ⟨a, b, _⟩ := delG_dies_with_object s s' r g h0 hg ht (reachable_UniqueCells f P ls s hrun) hown h
   ⟨a, b⟩
 
 /-- … and so does move construction from it -/
@@ -329,9 +369,20 @@ theorem mvG_dies_with_object_run (f : Nat) (P : Prog) (ls : List Line) (s s' : S
 theorem copy_is_distinct_run (f : Nat) (P : Prog) (ls : List Line) (s s1 s2 : St) (r1 r2 : String) (j i : Nat) (h0 : Handle)
     (hrun : runTop f P {} ls = some s) (hi : aget s.G i = some h0) (hj : aget s.G j = none)
     (h1 : stepSimple s (.cpG j i) = some (s1, r1)) (h2 : stepSimple s1 (.delG j) = some (s2, r2)) :
-    r2 = "ok" ∧ s2.S = s.S ∧ s2.impls = s1.impls ∧ s2.C = s.C ∧ s2.K = s.K :=
-  let ⟨a, b, c, d, e, _⟩ := copy_is_distinct s s1 s2 r1 r2 j i h0 hi hj (reachable_TracksBelow f P ls s hrun) h1 h2
-  ⟨a, b, c, d, e⟩
+    r2 = "ok" ∧ s2.S = s.S ∧ s2.impls = s1.impls ∧ s2.C = s.C ∧ s2.K = s.K := by
+  -- in a reachable state every functor-owned name is live (`Inv.OG`), so the unused name `j` is not owned
+  have hog : Sigc.Inv.OG s := Sigc.Inv.OG.stable.runTop_from f P ls {} s Sigc.Inv.OG.init hrun
+  have hnown : s.ownedG.any (fun p => p.2 = j) = false := by
+    cases hc : s.ownedG.any (fun p => p.2 = j) with
+    | false => rfl
+    | true =>
+      obtain ⟨p, hp, e⟩ := List.any_eq_true.1 hc
+      obtain ⟨hd, hg, _⟩ := hog.1 p hp
+      have e' : p.2 = j := by simpa using e
+      rw [e', hj] at hg; cases hg
+  obtain ⟨a, b, c, d, e, _⟩ :=
+    copy_is_distinct s s1 s2 r1 r2 j i h0 hi hj (reachable_TracksBelow f P ls s hrun) hnown h1 h2
+  exact ⟨a, b, c, d, e⟩
 
 /-- a run: `newG 0 TI; newG 1 I; connfn 0 1 (fwd 0); cpG 2 0; delG 2; sizeq 1 → 1; delG 0; sizeq 1 → 0`
     (destroying the copy keeps the forwarder, destroying the original removes it) -/
@@ -352,12 +403,13 @@ theorem spec_forwarder_emits_target (f : Nat) (P : Prog) (s : Spec.LSt) (o arg g
   rw [Spec.invokeFun]
   simp [hh]
 
-/-- in `S`, destroying a trackable_signal object empties every slot variable holding a forwarder to it -/
+/-- in `S`, destroying a trackable_signal object (not refused: no functor owns it) empties every slot variable
+    holding a forwarder to it -/
 theorem spec_delG_invalidates_forwarders (s s' : Spec.LSt) (r : String) (g : Nat) (h0 : Handle)
-    (hg : aget s.G g = some h0) (ht : h0.fl.isTrackable = true)
+    (hg : aget s.G g = some h0) (ht : h0.fl.isTrackable = true) (hown : s.ownedG.any (fun p => p.2 = g) = false)
     (h : Spec.stepSimple s (.delG g) = some (s', r)) :
     r = "ok" ∧ s'.S = amap s.S (invVar h0.trk) := by
-  simp only [Spec.stepSimple, hg, ht] at h
+  simp only [Spec.stepSimple, hg, ht, hown] at h
   simp at h
   obtain ⟨rfl, rfl⟩ := h
   refine ⟨rfl, ?_⟩
